@@ -49,6 +49,8 @@ pub fn pct_program(p: &Prog, iters: usize, seed: u64) -> (Value, Vec<Value>) {
         let a = run_all(&prog, Box::new(PctScheduler::new_from_seed(seed, depth, iters)), &cfg, iters + 2);
         let b = run_all(&prog, Box::new(PctScheduler::new_from_seed(seed, depth, iters)), &cfg, iters + 2);
         let same = a.len() == b.len() && a.iter().zip(b.iter()).all(|(x, y)| x.events == y.events);
+        // PCT refuses to go on when the body never offered a choice ("did not exercise any concurrency")
+        let refused = crate::sample::RETURNS.with(|r| r.borrow().iter().any(|(_, n)| *n == usize::MAX));
         log.push(json!({"e":"run","depth":depth,"ntasks":p.tasks.len(),"prog":p.id}));
         let mut bugs = 0;
         for ex in &a {
@@ -63,7 +65,7 @@ pub fn pct_program(p: &Prog, iters: usize, seed: u64) -> (Value, Vec<Value>) {
                 }
             }
         }
-        runs.push(json!({"depth":depth,"execs":a.len(),"same_seed_same_run":same,"failing":bugs}));
+        runs.push(json!({"depth":depth,"execs":a.len(),"same_seed_same_run":same,"failing":bugs,"refused":refused}));
     }
     (json!({"prog": p.id, "runs": runs, "capped": false, "nondet": null, "outcomes": []}), log)
 }
